@@ -46,7 +46,7 @@ M = [
     ("c07-strlen-bytes", "C07", "exec/function.go", "	return Number(utf8.RuneCountInString(args[0].String())), nil", "	return Number(len(args[0].String())), nil"),
     ("c07-normalize-trim-only", "C07", "exec/function.go", "	return strings.Join(fields, \" \")", "	if len(fields) > 3 {\n		return strings.TrimSpace(str)\n	}\n\n	return strings.Join(fields, \" \")"),
     ("c07-translate-last-occurrence", "C07", "exec/function.go", "				mapped = true\n				break", "				mapped = true"),
-    ("c07-substring-off-by-one", "C07", "exec/function.go", "		if pos >= begin && pos < end {", "		if pos > begin-1 && pos < end {"),
+    ("c07-substring-off-by-one", "C07", "exec/function.go", "		if pos >= begin && pos < end {", "		if pos > begin && pos < end {"),
     ("c08-subtract-is-add", "C08", "exec/contextfn_numbers.go", "	contextFunctions[symbols.NT_AdditiveExprSubtract] = execAdditiveExprSubtract", "	contextFunctions[symbols.NT_AdditiveExprSubtract] = execAdditiveExprAdd"),
     ("c08-lte-is-lt", "C08", "exec/contextfn_comparisons.go", "	contextFunctions[symbols.NT_RelationalExprLessThanOrEqual] = execRelationalExprLessThanOrEqual", "	contextFunctions[symbols.NT_RelationalExprLessThanOrEqual] = execRelationalExprLessThan"),
     ("c08-filter-path-dropped", "C08", "exec/contextfn_paths.go", "	contextFunctions[symbols.NT_PathExprFilterWithAbbreviatedPath] = execAbbreviatedRelativeLocationPath\n", ""),
@@ -69,7 +69,7 @@ M = [
     ("c17-comments-dropped-after-html", "C17", "parser/html.go", "	case html.CommentNode:\n		x.nodeEmitted = true", "	case html.CommentNode:\n		x.nodeEmitted = true\n		if x.node.Parent != nil && x.node.Parent.Type == html.DocumentNode {\n			return x.Pull()\n		}"),
     ("c18-seed-with-parent", "C18", "exec/exec.go", "		contextSize:      1,", "		contextSize:      2,"),
     ("c19-slice-reversed", "C19", "exec/unmarshal.go", "		field.Set(reflect.Append(field, ptrVal))", "		field.Set(reflect.AppendSlice(reflect.Append(reflect.MakeSlice(field.Type(), 0, 1), ptrVal), field))"),
-    ("c19-uint8-via-int8", "C19", "exec/unmarshal.go", "		return reflect.ValueOf(uint8(result.Number())), true", "		return reflect.ValueOf(uint8(int8(result.Number()))), true"),
+    ("c19-uint16-via-uint8", "C19", "exec/unmarshal.go", "		return reflect.ValueOf(uint16(result.Number())), true", "		return reflect.ValueOf(uint16(uint8(result.Number()))), true"),
     ("c20-prefix-without-space", "C20", "xsel/xsel.go", "		fmt.Fprintf(buffer, \"%s: %s\\n\", path, result.String())", "		fmt.Fprintf(buffer, \"%s:%s\\n\", path, result.String())"),
     ("c20-a-first-only-for-attrs", "C20", "xsel/xsel.go", "		for _, node := range nodeSet {\n			writeResult(&buffer, path, xsel.NodeSet{node})\n		}", "		for k, node := range nodeSet {\n			if k >= 5 {\n				break\n			}\n			writeResult(&buffer, path, xsel.NodeSet{node})\n		}"),
     ("c14-cli-print-per-record", "C14", "xsel/xsel.go", "		for _, node := range nodeSet {\n			writeResult(&buffer, path, xsel.NodeSet{node})\n		}", "		for _, node := range nodeSet {\n			writeResult(&buffer, path, xsel.NodeSet{node})\n			fmt.Print(buffer.String())\n			buffer.Reset()\n		}"),
